@@ -563,6 +563,19 @@ class Walker:
         return self.ev(t, st, d)
 
     def s_If(self, s, st, d):
+        if getattr(self, 'split_bool', False) and isinstance(s.test, ast.BoolOp) and len(s.test.values) >= 2:
+            # if a or b: X else: Y   is   if a: X elif b: X else: Y      (and dually for ``and``)
+            first, rest = s.test.values[0], s.test.values[1:]
+            rest_t = rest[0] if len(rest) == 1 else ast.BoolOp(op=s.test.op, values=rest)
+            if isinstance(s.test.op, ast.Or):
+                inner = ast.If(test=rest_t, body=s.body, orelse=s.orelse)
+                new = ast.If(test=first, body=s.body, orelse=[inner])
+            else:
+                inner = ast.If(test=rest_t, body=s.body, orelse=s.orelse)
+                new = ast.If(test=first, body=[inner], orelse=s.orelse)
+            ast.copy_location(inner, s)
+            ast.copy_location(new, s)
+            return self.s_If(new, st, d)
         t = self.ev(s.test, st, d)
         known = self.truth(t, st)
         out = []
